@@ -1,8 +1,9 @@
-"""C08 typing / C01-C03 leaves: SingleAmount, PostingAmount, Amount."""
-from ._amount_units import TYPES, SINGLE, POSTING, AMOUNT
+"""C08 (evaluation half): Evaluated typing rules and conversions."""
+from ._amount_units import TYPES, SINGLE, POSTING, AMOUNT, opaque
+from ._eval_units import EXPR_TYPES, EVALUATED_TYPE, EVALUATED
 
 GROUP = {
-    "name": "amounts",
+    "name": "evaluated",
     "uses": "use std::collections::HashMap;\nuse vstd::std_specs::hash::*;\nuse core::ops::{Add, AddAssign, Mul, MulAssign, Neg, Sub, SubAssign};\n",
     "broadcast": ["rust_decimal::axiom_round", "rust_decimal::axiom_sign", "key_axioms::axiom_commodity_key_model", "key_axioms::axiom_account_key_model", "amount_lemmas::lemma_single_entry", "amount_lemmas::lemma_ncomm"],
     "parts": [
@@ -12,6 +13,10 @@ GROUP = {
         ("text", "ctx_stub.rs"),
         *TYPES,
         ("text", "amount_spec.rs"),
-        *SINGLE, *POSTING, *AMOUNT,
+        *opaque(SINGLE), *opaque(POSTING), *opaque(AMOUNT),
+        *EXPR_TYPES,
+        *EVALUATED_TYPE,
+        ("text", "evaluated_spec.rs"),
+        *EVALUATED,
     ],
 }
